@@ -236,11 +236,12 @@ def main(argv=None):
     obligations = [o for o in obligations if o not in known_hit]
     discharged = len([o for o in obligations if o not in failed_names])
 
-    # thorough tier: the property's witness probe (real crate, public API, fixed catalogue of inputs) is run as a BOUNDED
-    # stand-in for the clauses the contracts do not decide (convergence, accuracy); it is labelled bounded, never counted as
-    # an obligation, and a failing input it finds on the current tree is a violation with a concrete replay
+    # both tiers: once every obligation is discharged, the property's witness probe (real crate, public API, fixed catalogue of
+    # inputs) is run as a BOUNDED stand-in for the clauses the contracts do not decide (convergence, accuracy, functions not under
+    # contract); it is labelled bounded, never counted as an obligation, and a failing input it finds on the current tree is a
+    # violation with a concrete replay.  VERIF_NO_PROBE=1 switches it off.
     bounded_runs, bounded_hit = [], None
-    if a.tier == "thorough" and not new_fail and not und and not a.only:
+    if not new_fail and not und and not a.only and not os.environ.get("VERIF_NO_PROBE"):
         wfn = getattr(mod, "witness", None) or default_witness(prop)
         if wfn:
             try:
